@@ -248,6 +248,37 @@ func (c *streamCtx) histShapes(prop string) []func(v int) *histSpec {
 			step(700, c.off(), "failing scan again").withOracle("g1", f),
 			step(10, c.off(), "fault-free scan"))
 	}
+	// the no-delete annotation arrives AFTER the reaper has already looked at the tainted node once (and found it too young)
+	shapes["annotate-late"] = func(v int) *histSpec {
+		init := c.histWorld(5, 8, func(b *gbuild) { b.o.MinNodes = 1 })
+		late := []string{"g1-n4", "g1-n3", "g1-n2"}[v%3]
+		return hist(init, "annotate-late",
+			step(0, c.off(), "idle cluster: taint"),
+			step(60, c.off(), "the reaper looks at the tainted nodes: too young", hEdit{Op: "del_pod", Pod: "g1-p5"}, hEdit{Op: "del_pod", Pod: "g1-p4"}, hEdit{Op: "del_pod", Pod: "g1-p3"}),
+			step(60, c.off(), "one of them is annotated now", hEdit{Op: "annotate", Node: late, Key: noDeleteKey, Val: "true"}),
+			step(250, c.off(), "soft grace over: the others go, the annotated one stays"),
+			step(400, c.off(), "hard grace over"),
+			step(10, c.off(), "annotation emptied: it goes too", hEdit{Op: "annotate", Node: late, Key: noDeleteKey, Val: ""}))
+	}
+	// the same in real time (grace periods of seconds, no timestamp is rewritten between the scans: whatever escalator remembers
+	// about a node under its taint value stays addressable)
+	shapes["annotate-late-real"] = func(v int) *histSpec {
+		init := c.histWorld(5, 8, func(b *gbuild) {
+			b.o.MinNodes = 1
+			b.o.SoftDeleteGracePeriod, b.o.HardDeleteGracePeriod = "2s", "1h"
+		})
+		late := []string{"g1-n4", "g1-n3"}[v%2]
+		real := func(ms int64, note string, edits ...hEdit) histStep {
+			st := step(0, 0, note, edits...)
+			st.SleepMs, st.NoShift = ms, true
+			return st
+		}
+		return hist(init, "annotate-late-real",
+			real(0, "idle cluster: taint"),
+			real(300, "the reaper looks at the tainted nodes: too young", hEdit{Op: "del_pod", Pod: "g1-p5"}, hEdit{Op: "del_pod", Pod: "g1-p4"}, hEdit{Op: "del_pod", Pod: "g1-p3"}),
+			real(100, "one of them is annotated now", hEdit{Op: "annotate", Node: late, Key: noDeleteKey, Val: "true"}),
+			real(3200, "soft grace over: the others go, the annotated one stays"))
+	}
 	// two scale-downs of one controller several REAL seconds apart: each taint carries the second it was written in
 	shapes["seconds-apart"] = func(v int) *histSpec {
 		init := c.histWorld(5, 8, func(b *gbuild) { b.o.MinNodes = 1; b.o.FastNodeRemovalRate = 1 })
@@ -423,9 +454,9 @@ func (c *streamCtx) histShapes(prop string) []func(v int) *histSpec {
 		return hist(init, "node-size-change", steps...)
 	}
 	order := []string{"taint-wait-reap", "repeated-scale-down", "cooldown", "pods-move", "restart", "dry", "from-zero", "transient-failure",
-		"constructed-earlier", "lister-lag", "cordon-annotate", "external-taints", "two-groups", "double-fault", "cordon-swap"}
+		"constructed-earlier", "lister-lag", "cordon-annotate", "external-taints", "two-groups", "double-fault", "cordon-swap", "annotate-late", "annotate-late-real"}
 	byProp := map[string][]string{
-		"C01":  {"taint-wait-reap", "pods-move", "restart", "external-taints", "lister-lag", "cordon-annotate"},
+		"C01":  {"taint-wait-reap", "pods-move", "restart", "external-taints", "lister-lag", "cordon-annotate", "annotate-late"},
 		"C02":  {"cooldown", "restart", "from-zero", "dry", "two-groups", "transient-failure"},
 		"C03":  {"constructed-earlier", "repeated-scale-down", "taint-wait-reap", "constructed-earlier", "cordon-annotate", "cordon-swap", "double-fault"},
 		"C04":  {"constructed-earlier", "cooldown", "constructed-earlier", "from-zero", "two-groups"},
@@ -433,7 +464,7 @@ func (c *streamCtx) histShapes(prop string) []func(v int) *histSpec {
 		"C07":  {"cooldown", "restart", "dry", "transient-failure"},
 		"C08":  {"repeated-scale-down", "double-fault", "taint-wait-reap", "cordon-annotate", "cordon-swap"},
 		"C09":  {"cordon-annotate", "cordon-swap", "pods-move", "taint-wait-reap", "double-fault"},
-		"C10":  {"cordon-annotate", "taint-wait-reap", "pods-move"},
+		"C10":  {"cordon-annotate", "annotate-late-real", "annotate-late", "taint-wait-reap", "pods-move"},
 		"C11":  {"dry", "from-zero"},
 		"C12":  {"two-groups", "transient-failure"},
 		"C15":  {"repeated-scale-down", "seconds-apart", "external-taints", "double-fault", "restart", "cooldown", "cordon-swap"},
